@@ -434,6 +434,30 @@ def rule_CP7(rep, prog, g):
         rep.unknown(rid, "fewer than 2 retried compare-exchanges on the group state found (%d)" % n)
 
 
+def rule_WM10(rep, prog, g):
+    rid = rep.rule("C07-WM10", "HAS_WAITERS / HAS_NOTIFS are shared by every waiter / notification of a generation: they are cleared only by the thread that completes the "
+                   "generation (the fix-up CAS of dispatch_group_leave) and by the constructor - never by an individual waiter (for instance when it times out) or "
+                   "notifier", floor=2)
+    HW, HN = g["DISPATCH_GROUP_HAS_WAITERS"], g["DISPATCH_GROUP_HAS_NOTIFS"]
+    ex = trans.Extractor(prog)
+    ALLOWED = {"dispatch_group_leave": "completes the generation", "_dispatch_group_create_with_count": "constructor (plain store before publication)"}
+    n = 0
+    for fn in sorted(prog.all_functions(), key=lambda f: f.name):
+        if not any(prog.fields(i) & GF for i in fn.all_insts() if i.op in ("store", "atomicrmw", "cmpxchg")):
+            continue
+        for t in ex.transitions(fn, GF):
+            if isinstance(t, trans.GiveUp) or not (t.clears(HW) or t.clears(HN)):
+                continue
+            n += 1
+            rep.saw(fn)
+            rep.require(rid, fn.name in ALLOWED, t.site.loc, fn.name, "group-flag-cleared-by:%s" % fn.name,
+                        "%s clears %s in the group's state: the bit stands for ALL sleepers / notifications of the generation, so the final leave finds it clear, skips "
+                        "the wake-up and the others are left behind on an empty group" % (fn.name, "HAS_WAITERS" if t.clears(HW) else "HAS_NOTIFS"),
+                        sample={"fn": fn.name, "site": t.site.loc})
+    if n < 2:
+        rep.unknown(rid, "fewer than 2 transitions clearing the group flags found (%d)" % n)
+
+
 def rule_OD9(rep, prog, g):
     rid = rep.rule("C07-OD9", "a notification is attributed to a generation: every path through _dispatch_group_notify looks at the group's state word (dg_state / dg_bits / "
                    "dg_gen), before or after publishing the notification - finding the list non-empty does not say whether it holds the CURRENT generation's notifications "
@@ -483,6 +507,8 @@ def run(rep, tier="quick", srcdir=None, only=None):
         rule_futex_key(rep, "C07", prog)
     if want("C07-OD9"):
         rule_OD9(rep, prog, g)
+    if want("C07-WM10"):
+        rule_WM10(rep, prog, g)
     if want("C05-MP4"):
         # notifications fire for the generation that completed: the wake works on a detached snapshot of the list (shared with C05)
         from . import C05
